@@ -106,6 +106,7 @@ def _build():
     _add('reject[orderby]', Q(items=[agg('MAX', 'a2', A2)], order=[('a1', lambda e: e.a(1))]), ['ii', 'ii'], quick=True)
     _add('reject[groupby+orderby]', Q(items=[fa(1), agg('MAX', 'a2', A2)], group=G1, order=[('a1', lambda e: e.a(1))]), ['ii'])
     _add('reject[distinct]', Q(items=[fa(1), agg('COUNT', 'a2', A2)], group=G1, distinct='distinct'), ['ii', 'ii'], quick=True)
+    _add('reject[distinct-count]', Q(items=[fa(1), agg('COUNT', 'a2', A2)], group=G1, distinct='count'), ['ii', 'ii'], quick=True)
     _add('reject[distinct,empty]', Q(items=[fa(1), agg('COUNT', 'a2', A2)], group=G1, distinct='distinct'), [])
 
 
